@@ -22,9 +22,9 @@ try:
         m = re.match(r"(cp\s+(-r\s+)?SEED/\S+\s+\S+)", l)
         if m and m.group(1) not in cps:
             cps.append(m.group(1))
-        m = re.search(r"(go test [^#;&|]*)", l)
+        m = re.search(r"""(go test (?:'[^']*'|"[^"]*"|[^#;&|])*)""", l)
         if m:
-            t = m.group(1).strip()
+            t = re.sub(r"\s*\d?>+\s*\S*\s*$", "", m.group(1).strip())
             if "-json" in t or "./..." in t:
                 continue
             if t not in tests:
